@@ -103,6 +103,11 @@ func ParseToken(tokenString string, claims any) ([]byte, error) {
 	if err != nil {
 		return nil, fmt.Errorf("%w: malformed jwt payload: %v", ErrParse, err)
 	}
+	// the claims set of a JWT is a JSON object (RFC 7519, section 7.2);
+	// anything else, in particular `null`, would leave claims untouched or nil
+	if obj := bytes.TrimLeft(payload, " \t\r\n"); len(obj) == 0 || obj[0] != '{' {
+		return nil, fmt.Errorf("%w: jwt payload is not a JSON object", ErrParse)
+	}
 	err = json.Unmarshal(payload, claims)
 	return payload, err
 }
